@@ -25,7 +25,7 @@ CHECKS = {
                       'get_source_location_from_file_offset} (each file owns [base, base+len] of the location space, the ranges partition it), and of digit_sequence / calculate_float64_from_parts (the value of a floating literal '
                       'is what the standard library f64 parser returns for the spelling 0<whole digits>.<fraction digits>e<exponent>, i.e. the nearest double of the written decimal, rounded once). '
                       'Kani: the integer suffix table (complete over every 3-byte lookahead); bounded harnesses for the prefix dispatch of literal_int, for literal_float on five token shapes (which digit strings and exponent reach '
-                      'calculate_float64_from_parts; f/h suffix narrows that value once to f32), for float_exponent on all inputs of at most 22 bytes, and for the location table inverse.',
+                      'calculate_float64_from_parts; f/h suffix narrows that value once to f32), for float_exponent (total on inputs of at most 22 bytes; value on the shape e[+-]DDD), for the span bookkeeping of TokenStream::next through its API with the per-token lexer replaced by an arbitrary-prefix consumer (<= 6 bytes, 3 tokens), and for the location table inverse.',
         'level_note': 'Assumed: `impl FromStr for f64` accepts digits.digits e integer and returns the correctly rounded double (documented by std; IEEE arithmetic is not modelled by Verus), str::parse is a function of the text, '
                       'Display for i64 (vstd leaves its text uninterpreted), Vec::from(array) holds the array elements, String push / push_str (vstd). '
                       'literal_float and float_exponent use slice patterns Verus rejects: their glue is checked by bounded Kani harnesses only (never counted as proved). '
@@ -38,25 +38,30 @@ CHECKS = {
         'level_text': 'Unbounded deductive proof (Verus) that ConditionChain::{new,push,switch,pop}, extracted verbatim from preprocess.rs, implement the C #if/#elif/#else/#endif group-selection rule over the '
                       '(now,taken) abstraction with unmatched #else/#endif rejected, that BinOp::apply is the C semantics of the eight binary operators over u64, that combine_rights groups the operators of one '
                       'precedence level to the left, and that parse_leaf / parse_p2 give literals, true/false, unknown identifiers (0), parenthesised conditions and ! their C value. '
-                      'Kani (bounded by shape, operands fully symbolic u64): for 18 concrete token shapes the real parse_p12..parse_p6 chain yields the C value - each binary operator alone, `<` vs `<=` adjacency, six precedence pairs, three associativity cases. '
-                      'Thorough tier adds a bounded Kani harness driving ConditionChain through its API (sequences of 5 operations) which also discharges the assumed is_active contract.',
+                      'Kani (bounded by shape, operands fully symbolic u64): for 22 concrete token shapes the real parse_p12..parse_p2 functions yield the C value - each binary operator alone, `<` vs `<=` adjacency, six precedence pairs, three associativity cases, ! / !! / !!! and `a < !b`. '
+                      'preprocess_initial_file (Verus): the chain starts empty and the result is Ok only if the chain the entry file leaves behind is empty. '
+                      'Directive gating (Kani, bounded: one directive shape on a symbolic chain of depth <= 2, heavy callees replaced by recorders): #define / #undef / #include / #pragma / unknown directives have no effect at all inside an unselected group and their effect inside a selected one; '
+                      '#if / #ifdef / #ifndef open a group that is selected iff the directive is read and its test holds (the test is not evaluated otherwise); #elif / #else / #endif move the innermost level by the C rule or are rejected when unmatched. '
+                      'Thorough tier adds a bounded Kani harness driving ConditionChain through its API (sequences of 5 operations) which also discharges the assumed is_active contract, and two three-level precedence shapes.',
         'level_note': 'Assumed in the quick tier: contract of ConditionChain::is_active (Iterator::all with an un-annotated closure has no usable spec); parse_p12 is uninterpreted inside the Verus unit (recursion through parentheses). '
-                      'NOT decided: directive gating in preprocess_command (define/undef/include/pragma in unselected branches), the end-of-input check in preprocess_initial_file, routing of every line through the automaton, '
-                      'the precedence-climbing glue beyond the 18 shapes (slice patterns; closures) and macro substitution / defined() in conditions. Assumed: u64::from(bool).',
+                      'NOT decided: routing of every line through preprocess_command (preprocess_included_file / flush_normal), gating beyond chain depth 2 and beyond one token shape per directive, '
+                      'the precedence-climbing glue beyond the 22 + 2 shapes (slice patterns; closures) and macro substitution / defined() in conditions. Assumed: u64::from(bool); preprocess_included_file threads the chain (uninterpreted result).',
     },
     'C13': {
         'engine': 'K+V',
         'technique': 'Kani complete harnesses per operator / cast target of the constant evaluator (sub-evaluation stubbed) + Verus contract on the routing function evaluate_constexpr',
         'level_text': 'Verus (unbounded): evaluate_constexpr composes the value of a constant expression from its parts exactly as the statement says (literal = its value, named constant = recorded value, '
                       'cast node = conversion of the operand value after removing the type modifier, operator node = operator applied to the operands, anything else not constant) and leaves the module unchanged. '
-                      'Kani (complete, loop-free, full bit-width operands of every Constant kind, enum-wrapped or not): evaluate_operator returns the value the statement defines for 23 of its 26 operators and never aborts (multiplication: complete too, but with the kissat back end and 7-15 min, so thorough tier only); '
-                      'for / and % the divisors 0, 1, -1 (all-ones) with any dividend; evaluate_cast to bool/int/uint/half/float/double and to enums with int / uint underlying type from every source kind incl. enum constants; '
+                      'Kani (complete, loop-free, full bit-width operands of every Constant kind, enum-wrapped or not): evaluate_operator returns the value the statement defines for 23 of its 26 operators and never aborts; '
+                      'for * / % the harnesses are modular in the std primitive the code delegates to (i32/u32::wrapping_mul, i128::checked_mul, checked_div, wrapping_rem): the primitive is replaced by a recorder and the harness proves it is called exactly once with the two operand values in order and that its result (None = not constant) is returned unchanged, for every operand value, '
+                      'plus, on the real primitives, the divisors 0, 1, -1 (all-ones) with any dividend; evaluate_cast to bool/int/uint/half/float/double and to enums with int / uint underlying type from every source kind incl. enum constants; '
                       'Constant::to_uint64 yields exactly the non-negative integer values. Sub-expression evaluation is cut by stubs, so the results hold at any expression depth.',
-        'level_note': 'Bounded only (thorough tier, never counted): general quotient / remainder values (integer operands < 2^12) and untyped-literal multiplication (< 2^20) - equivalence of divider / 128-bit multiplier circuits '
-                      'does not finish in any installed back end (cadical, kissat 40 min, z3 and cvc5 fail inside CBMC). Assumed (harness preconditions, not proved of the typer): arity matches the operator; operands are all of one enum type or none; '
+        'level_note': 'Assumed: the std contracts of wrapping_mul / checked_mul / checked_div / wrapping_rem (two\'s-complement wrapping product, exact product or None, truncating quotient or None, its remainder). The direct full-width equivalence with a second multiplier / divider circuit '
+                      'does not finish reliably in any installed back end (kissat 7-50+ min for *, none for / %; z3 and cvc5 fail inside CBMC); value-level bounded harnesses (integer operands < 2^12, untyped-literal products < 2^20) run in the thorough tier and are never counted. uint % uses the % operator (not stubbable): special divisors + bounded only. '
+                      'If the code stops delegating to the primitive the modular harness reports undecided (cover unsatisfied), not a violation. Assumed (harness preconditions, not proved of the typer): arity matches the operator; operands are all of one enum type or none; '
                       'both operands have the same kind; ~ only on integers; the type / enum registries hold the layers the cast harness stubs for their getters. Bool operands are left out of < <= > >= because Kani 0.68 mis-models the ordering of bool. '
                       'In the Verus unit evaluate_operator / evaluate_cast are uninterpreted functions of their arguments and registry getters are assumed. Float16 is stored as f32 (no rounding to half is required or checked). '
-                      'Not covered: that every constant-demanding syntactic position routes through evaluate_constexpr. CBMC IEEE-754 float model.',
+                      'Not covered: that every constant-demanding syntactic position routes through evaluate_constexpr (e.g. template value arguments in typer/types.rs). CBMC IEEE-754 float model.',
     },
 }
 
@@ -78,7 +83,8 @@ CHECKS['C14'] = {
     'technique': 'Verus contracts on SourceManager (location table invariant) and get_file_location against newline-count spec + line-shift lemma',
     'level_text': 'Unbounded deductive proof (Verus) on the verbatim text of SourceManager::{new,add_file,get_source_location_from_file_offset,get_file_location}, SourceLocation, Line, Column: '
                   'the location table partitions the location space, and a location inside file f at offset o is reported as (name of f, 1 + number of newlines before o, 1 + o - start of the line); '
-                  'a lemma shows that inserting k complete lines in front adds exactly k to the line and leaves the column unchanged.',
+                  'a lemma shows that inserting k complete lines in front adds exactly k to the line and leaves the column unchanged; a non-empty file\'s token sequence ends with Endline whatever trivia it ends in. '
+                  'Kani (bounded): get_file_location through the SourceManager API on two small files; block_comment ends at the first */ at or after byte 2 (inputs <= 8 bytes).',
     'level_note': 'Partial: the position function and the table only. NOT decided: that trivia insertion leaves the compiler output unchanged (needs lexer + macro expander + parser), '
                   'that every diagnostic carries the right location. Assumed: String::as_bytes/len model (uninterpreted byte sequence), derived Clone of FileName = identity. '
                   'Precondition not proved of callers: total source bytes < 2^32 - 1.',
